@@ -38,6 +38,7 @@ from .. import cox_common as cc
 
 MATS, RADS, OBS, EDGES, INFO, CONFIGS, CONTAINERS = [], [], [], [], {}, [], list(cc.DIAGRAM_CONTAINERS)
 LABEL_TYPES = list(cc.LABEL_TYPES)
+UNIVERSE = dict(orders=list(cc.NAME_ORDERS), histories=["query", "edit_input_then_query"])
 
 
 def as_obj(x):
@@ -180,15 +181,19 @@ def check_config(m, ball, cfgd):
     n = len(M)
     bad = []
     try:
-        G, names, input_unchanged = cc.build_group_ex(M, cfgd["route"], cfgd["style"], cfgd["inf"], cfgd.get("container", "list"),
-                                                      cfgd.get("labels", "int"))
+        G, names, input_unchanged, consistent = cc.build_group_full(M, cfgd["route"], cfgd["style"], cfgd["inf"], cfgd.get("container", "list"),
+                                                                    cfgd.get("labels", "int"), cfgd.get("order", "sorted"), cfgd.get("history", "query"))
     except Exception as e:
         return [("raised:CoxeterGroup", "%s: %s" % (type(e).__name__, e))], 1
     evals = 0
     diag = cfgd["diag"]
     LM = cc.lib_matrix(M, cfgd["inf"])
-    if list(G.ordered_gens) != names or not np.array_equal(np.asarray(G.coxeter_matrix), np.array(LM)):
-        return [("constructor", "ordered_gens %r, coxeter_matrix %r; expected %r, %r" % (list(G.ordered_gens), np.asarray(G.coxeter_matrix).tolist(), names, LM))], 1
+    d = consistent()
+    if d:
+        # coxeter_matrix[i][j] must be the label handed over for the pair (ordered_gens[i], ordered_gens[j])
+        return [("constructor", d)], 1
+    if list(G.ordered_gens) != names:
+        return [("constructor.order", "ordered_gens %r, expected %r (matrix index order / order of first appearance in the diagram)" % (list(G.ordered_gens), names))], 1
     Bexp = cosine_matrix(M)
     sg = signature(M, info["sig"])
     kinds = as_obj(info["cartan"])
@@ -277,6 +282,24 @@ def check_config(m, ball, cfgd):
                 evals += len(ball.ids) + len(ball.F)
             except Exception as e:
                 bad.append(("raised:cartan_representation", "%s: %s" % (type(e).__name__, e)))
+    # Tits-Vinberg representation of a symmetric Cartan matrix with free parameters, diagonalised: still a
+    # representation, and it preserves the diagonal form of the signature of THAT Cartan matrix
+    if diag and "tvs" in kinds and info.get("tvsdet", 0) != 0:
+        C = np.array(kinds["tvs"], dtype=float)
+        ev = np.linalg.eigvalsh(C / 2)
+        if np.abs(ev).min() > 1e-3:
+            plist = as_obj(info["params"])["tvs"]
+            try:
+                params = {(p[0] - 1, p[1] - 1): float(p[2]) for p in plist}
+                rep = G.tits_vinberg_rep(params, diagonalize=True)
+                b, X = check_rep("tits_vinberg[tvs](diag)", rep, ball, info, names, 1e-7)
+                bad += b
+                evals += len(ball.ids) + len(ball.F)
+                if X is not None:
+                    Dc = np.diag([-1.0] * int((ev < 0).sum()) + [1.0] * int((ev > 0).sum()))
+                    bad += form_check("tits_vinberg[tvs](diag)", X, Dc, 1e-7)
+            except Exception as e:
+                bad.append(("raised:tits_vinberg_rep(diagonalize=True)", "%s: %s" % (type(e).__name__, e)))
     # hyperbolic
     if diag and sg == (1, n - 1):
         try:
@@ -313,6 +336,11 @@ def check_matrix(args):
             # "an iterable of tuples": containers and one-shot iterables in rotation
             cfgd["container"] = CONTAINERS[(m + ci) % len(CONTAINERS)]
         cfgd["labels"] = LABEL_TYPES[(m + (ci >> 1)) % len(LABEL_TYPES)]
+        if cfgd["route"] == "diagram":
+            cfgd["order"] = UNIVERSE["orders"][(m + ci) % len(UNIVERSE["orders"])]
+        cfgd["history"] = UNIVERSE["histories"][(m + ci + (ci >> 1)) % len(UNIVERSE["histories"])]
+        if cfgd["route"] == "diagram" and cfgd["container"] != "list":
+            cfgd["history"] = "query"        # a one-shot iterable leaves the caller nothing to edit
         bad, ev = check_config(m, ball, cfgd)
         tot += ev
         for clause, detail in bad[:4]:
@@ -427,6 +455,11 @@ def run(run, replay=None):
         "tits_vinberg_rep / cartan_representation are not combined with diagonalize; every pair of generators is listed in a diagram; "
         "the diagram is handed over as list / tuple / generator / zip / iterator / map in rotation (documented as 'an iterable of tuples')",
         "infinite order of a product: powers up to 13 differ from I",
+        "diagram names first appear in alphabetical / reverse / mixed order (rotation); coxeter_matrix[i][j] must be the label handed over for "
+        "(ordered_gens[i], ordered_gens[j]); half of the constructions are followed by the caller overwriting its own array / edge list with "
+        "another matrix before any query",
+        "tits_vinberg_rep(parameters, diagonalize=True) for the symmetric parameter kind when the specification's determinant of that Cartan "
+        "matrix is nonzero (and numpy's smallest |eigenvalue| > 1e-3): closure, relators, diagonal form of the signature of that Cartan matrix",
         "labels handed over as int64 or as float64 with integral values (matrix dtype / diagram labels), alternating; on every group object "
         "bilinear_form() is asked twice and every representation is built after earlier queries; coxeter_matrix and the caller's input must "
         "be unchanged after each",
@@ -446,6 +479,11 @@ def run(run, replay=None):
     if "LBT" not in tables or not set(tables["LBT"]) <= set(cc.LABEL_TYPES):
         raise core.MachineryFailure("CoxeterRep.tla did not print the table of label types")
     LABEL_TYPES = sorted(tables["LBT"], reverse=True)      # int, float
+    var = tables.get("VAR")
+    if not var or not set(var["orders"]) <= set(cc.NAME_ORDERS):
+        raise core.MachineryFailure("CoxeterWalk.tla did not print the table of construction variants")
+    UNIVERSE["orders"] = sorted(var["orders"], reverse=True)
+    UNIVERSE["histories"] = sorted(var["histories"], reverse=True)
     ncfg = len(CONFIGS)
     plan = []
     for m in range(len(MATS)):
@@ -480,7 +518,7 @@ def run(run, replay=None):
         run.traces += 1
         for ctx, clause, detail in bad:
             key = "cox:%s:%s/%s/%s/%s" % (cc.short(ctx["matrix"]), ctx["route"] + ("(%s)" % ctx["container"] if "container" in ctx else "") + ("[float]" if ctx.get("labels") == "float" else ""),
-                                          ctx["style"], "diag" if ctx["diag"] else "plain", ctx["inf"])
+                                          ctx["style"] + ("/" + ctx["order"] if "order" in ctx else "") + ("/edited" if ctx.get("history", "query") != "query" else ""), "diag" if ctx["diag"] else "plain", ctx["inf"])
             run.violation(key, clause, dict(case=ctx, observed=detail))
         if sample:
             run.sample(sample)
